@@ -25,7 +25,9 @@ ENCODINGS = ALL_ENCODINGS[:4]                     # utf-8, ascii, latin-1, utf-1
 EXTRA_ENCODINGS = ALL_ENCODINGS[4:]               # one of these per case, in rotation (utf-32 and single-byte code pages)
 TRUSTED = [
     'modelled, not verified: genshi/output.py EmptyTagFilter, NamespaceFlattener, XMLSerializer, encode(); '
-    'genshi/input.py XMLParser callbacks and _coalesce (hand-written Lean model tied by correspondence on generated streams)',
+    'genshi/input.py XMLParser._handle_* and _coalesce (streams cbs: made-up callback sequences on the real methods; cbs-expat: expat\'s '
+    'recorded callbacks for generated documents), ET() (stream et), XML()+EmptyTagFilter as parseSource (streams reparse, reparse-source, '
+    'reparse-emptytext) — hand-written Lean models tied by correspondence; positions, _build_foreign and encoding errors are not modelled',
     'not modelled, only exercised: expat/pyexpat (both as genshi\'s tokenizer and as the oracle\'s independent reader), '
     'the codecs (utf-8/16/32, ascii, latin-1, iso-8859-2/-7/-15, cp1251, cp1252, cp437, koi8-r, mac-roman) — the model sees an encoding as the '
     'predicate "representable", extracted by running every scalar value through the codec\'s encoder',
@@ -191,6 +193,25 @@ def check_stream(case, stream, first, fails, res=None):
                 return
 
 
+def build_et(tree):
+    """builder tree (gen_xml.gen_tree) -> xml.etree.ElementTree element: string children become text / tail"""
+    import xml.etree.ElementTree as etree
+
+    def mk(n):
+        el = etree.Element(gen_xml.qname_text(*n['name']), dict((gen_xml.qname_text(*a), v) for a, v in n['attrs']))
+        last = None
+        for k in n['kids']:
+            if k['t'] == 'e':
+                last = mk(k)
+                el.append(last)
+            elif last is None:
+                el.text = (el.text or '') + k['s']
+            else:
+                last.tail = (last.tail or '') + k['s']
+        return el
+    return mk(tree)
+
+
 def oracle_case(case, res=None):
     """returns the first failure dict or None. case: {'kind':'doc','text':...} | {'kind':'tree','tree':...}
     | {'kind':'events','events':[wire events]}"""
@@ -225,6 +246,23 @@ def oracle_case(case, res=None):
             fails.append({'case': case, 'what': 'builder stream denotes the tree', 'expected': first, 'observed': got})
         else:
             check_stream(case, Stream(list(el.generate())), first, fails, res)
+    elif case['kind'] == 'et-tree':
+        # the same trees as ElementTree elements through genshi.input.ET (namespaces in `{ns}tag` names, no
+        # namespace events): "streams built programmatically from namespace-qualified names"
+        if not tree_in_domain(case['tree']):
+            if res is not None:
+                res.count('outside-domain')
+            return None
+        from genshi.input import ET
+        first = gen_xml.tree_events(case['tree'])
+        if not in_domain(first):
+            return None
+        events = list(ET(build_et(case['tree'])))
+        got = gen_xml.canon_events(events)
+        if got != first:
+            fails.append({'case': case, 'what': 'ET stream denotes the element tree', 'expected': first, 'observed': got})
+        else:
+            check_stream(case, Stream(events), first, fails, res)
     elif case['kind'] == 'bytes-doc':
         # the encoded output read by a parser that is NOT told the encoding (known finding C02-decl-encoding-echo)
         try:
@@ -381,6 +419,161 @@ def real_read(text):
         return proto.N
 
 
+# --------------------------------------------------------------------------
+# XMLParser's layer over expat: the `_handle_*` callbacks, `_coalesce`; `ET()`
+
+CB_NAMES = ['a', 'b', 'u}a', 'u}a}p', '{x', 'http://www.w3.org/XML/1998/namespace}lang', 'p:a', '}', 'u}', '']
+CB_OTHER = ['&nbsp;', '&eacute;', '&foo;', '&;', '&', '<!ELEMENT a EMPTY>', '', '&amp', '&euro;', ' ', '&lt;', '&Aacute;',
+            '&aacute', 'x&nbsp;']
+
+
+def gen_cbs(rng):
+    """a callback sequence as expat might deliver it (and some it never would): wire form"""
+    out = []
+    for _ in range(rng.randrange(1, 12)):
+        r = rng.random()
+        if r < 0.2:
+            attrs = [[rng.choice(CB_NAMES), rng.choice(WILD_TXT)] for _ in range(rng.choice([0, 0, 1, 2, 3]))]
+            out.append([Atom('SE'), rng.choice(CB_NAMES), attrs])
+        elif r < 0.32:
+            out.append([Atom('EE'), rng.choice(CB_NAMES)])
+        elif r < 0.55:
+            out.append([Atom('D'), rng.choice(WILD_TXT)])
+        elif r < 0.60:
+            out.append([Atom('XD'), rng.choice(['1.0', '1.1']), rng.choice([proto.N, 'utf-8', 'latin-1']),
+                        Atom(str(rng.choice([-1, 0, 1])))])
+        elif r < 0.66:
+            out.append([Atom('DT'), rng.choice(['a', 'html', 'x:r']), rng.choice([proto.N, 'x.dtd', 'a"b']),
+                        rng.choice([proto.N, '-//X//Y', ''])])
+        elif r < 0.74:
+            out.append([Atom('NS'), rng.choice([proto.N, 'p', '', 'xml']), rng.choice([proto.N, 'u', '', 'u1'])])
+        elif r < 0.79:
+            out.append([Atom('ENS'), rng.choice([proto.N, 'p', ''])])
+        elif r < 0.84:
+            out.append(Atom('SC'))
+        elif r < 0.89:
+            out.append(Atom('EC'))
+        elif r < 0.92:
+            out.append([Atom('PI'), rng.choice(['a', 'php']), rng.choice(WILD_TXT)])
+        elif r < 0.95:
+            out.append([Atom('C'), rng.choice(WILD_TXT)])
+        else:
+            out.append([Atom('O'), rng.choice(CB_OTHER)])
+    return out
+
+
+def _un(x):
+    return None if isinstance(x, Atom) and x == 'N' else x
+
+
+def real_cbs(cbs):
+    """the real `_handle_*` methods called directly on a fresh XMLParser, its queue through the real `_coalesce`"""
+    from io import StringIO
+    from xml.parsers import expat
+    from genshi.input import XMLParser, _coalesce
+    p = XMLParser(StringIO(''))
+    ok = True
+    try:
+        for c in cbs:
+            k = str(c[0]) if isinstance(c, list) else str(c)
+            if k == 'SE':
+                p._handle_start(c[1], [x for kv in c[2] for x in kv])
+            elif k == 'EE':
+                p._handle_end(c[1])
+            elif k == 'D':
+                p._handle_data(c[1])
+            elif k == 'XD':
+                p._handle_xml_decl(c[1], _un(c[2]), int(str(c[3])))
+            elif k == 'DT':
+                p._handle_doctype(c[1], _un(c[2]), _un(c[3]), 0)
+            elif k == 'NS':
+                p._handle_start_ns(_un(c[1]), _un(c[2]))
+            elif k == 'ENS':
+                p._handle_end_ns(_un(c[1]))
+            elif k == 'SC':
+                p._handle_start_cdata()
+            elif k == 'EC':
+                p._handle_end_cdata()
+            elif k == 'PI':
+                p._handle_pi(c[1], c[2])
+            elif k == 'C':
+                p._handle_comment(c[1])
+            elif k == 'O':
+                p._handle_other(c[1])
+    except expat.error:
+        ok = False
+    return [B(ok), wire_stream(list(_coalesce(iter(p._queue))))]
+
+
+def recorded_parse(text):
+    """XML parsing with every expat callback recorded (a subclass whose `_handle_*` log their arguments and then
+    call the real method).  -> (callbacks in wire form, events | None when ParseError)"""
+    from io import StringIO
+    from genshi.input import XMLParser, ParseError
+    log = []
+
+    class Rec(XMLParser):
+        pass
+
+    def hook(name, conv):
+        orig = getattr(XMLParser, name)
+
+        def h(self, *a):
+            log.append(conv(*a))
+            return orig(self, *a)
+        setattr(Rec, name, h)
+    o = lambda x: proto.N if x is None else x
+    hook('_handle_start', lambda tag, attrib: [Atom('SE'), tag, [[attrib[i], attrib[i + 1]] for i in range(0, len(attrib) - 1, 2)]])
+    hook('_handle_end', lambda tag: [Atom('EE'), tag])
+    hook('_handle_data', lambda t: [Atom('D'), t])
+    hook('_handle_xml_decl', lambda v, e, s: [Atom('XD'), v, o(e), Atom(str(int(s)))])
+    hook('_handle_doctype', lambda n, sy, pu, internal: [Atom('DT'), n, o(sy), o(pu)])
+    hook('_handle_start_ns', lambda p, u: [Atom('NS'), o(p), o(u)])
+    hook('_handle_end_ns', lambda p: [Atom('ENS'), o(p)])
+    hook('_handle_start_cdata', lambda: Atom('SC'))
+    hook('_handle_end_cdata', lambda: Atom('EC'))
+    hook('_handle_pi', lambda t, d: [Atom('PI'), t, d])
+    hook('_handle_comment', lambda t: [Atom('C'), t])
+    hook('_handle_other', lambda t: [Atom('O'), t])
+    try:
+        events = list(Rec(StringIO(text)))
+    except ParseError:
+        events = None
+    return log, events
+
+
+def gen_etree(rng, depth=2):
+    """what ET() reads of an ElementTree element: [tag, [[k, v]...], text|None, [kids], tail|None]"""
+    tag = rng.choice(['a', '{u}a', '{{u}a', 'b', '{u1}x', '{}a', 'u}a'])
+    attrs = []
+    seen = set()
+    for _ in range(rng.choice([0, 0, 1, 2])):
+        k = rng.choice(['id', '{u}x', '{{v}y', 'class', '{http://www.w3.org/XML/1998/namespace}lang'])
+        if k not in seen:
+            seen.add(k)
+            attrs.append([k, rng.choice(WILD_TXT)])
+    kids = [gen_etree(rng, depth - 1) for _ in range(rng.randrange(0, 3))] if depth > 0 else []
+    return [tag, attrs, rng.choice([None, '', 't', 'a<b', ' ']), kids, rng.choice([None, None, '', 'tail', '\n'])]
+
+
+def real_et(tree):
+    import xml.etree.ElementTree as etree
+    from genshi.input import ET
+
+    def build(t):
+        el = etree.Element(t[0], dict((k, v) for k, v in t[1]))
+        el.text = t[2]
+        el.tail = t[4]
+        for k in t[3]:
+            el.append(build(k))
+        return el
+    return evwire.stream(list(ET(build(tree))))
+
+
+def _etree_wire(t):
+    return [t[0], t[1], proto.N if t[2] is None else t[2], [_etree_wire(k) for k in t[3]], proto.N if t[4] is None else t[4]]
+
+
 class Corr(object):
     """collects request lines and the real answers; one gdrv run per shard"""
 
@@ -414,7 +607,7 @@ class Corr(object):
             return
         self.add('read' + tag, case, proto.line(C02, Atom('read'), text), real_read(text), post=_sort_rev)
 
-    def add_reparse(self, text, case):
+    def add_reparse(self, text, case, tag=''):
         """the specification-side parse (reparseX o tokenize) against XMLParser + EmptyTagFilter"""
         from genshi.input import XML
         from genshi.output import EmptyTagFilter
@@ -422,7 +615,7 @@ class Corr(object):
             real = [Atom('ok'), [xev_wire(e) for e in EmptyTagFilter()(iter(list(XML(text))))]]
         except Exception:  # noqa
             real = proto.N
-        self.add('reparse', case, proto.line(C02, Atom('reparse'), text), real)
+        self.add('reparse' + tag, case, proto.line(C02, Atom('reparse'), text), real, post='reparse')
 
     def add_enc(self, text, enc, case, tag=''):
         self.add('encode' + tag, case, proto.line(C02, Atom('enc'), enc_ranges(enc), text), real_enc(text, enc))
@@ -489,7 +682,21 @@ class Corr(object):
                         self.res.disagreements.append({'stream': stream, 'case': case,
                                                        'model': 'inside the text-level idempotence hypotheses (ascii) but ser(parseText(enc(ser))) != ser',
                                                        'real': 'theorem ser_idempotent_builder / ser_idempotent_parsed_text'})
+                if len(model) >= 17:
+                    insrc, sholds = (str(model[15]) == 'T'), (str(model[16]) == 'T')
+                    self.res.count('theorem-idem-source-domain:%s:%s' % (
+                        stream, 'inside' if insrc else 'no-start-end-fails' if (inbt or inpt) else 'outside'))
+                    if insrc and not sholds:
+                        self.res.disagreements.append({'stream': stream, 'case': case,
+                                                       'model': 'inside the hypotheses of ser_idempotent_*_source (ascii) but ser(parseSource(enc(ser))) != ser',
+                                                       'real': 'theorem ser_idempotent_builder_source / ser_idempotent_parsed_text_source'})
                 continue
+            if post == 'reparse':
+                # third field: does `parseText` (no `<a></a>` -> `<a/>`) give the same answer as `parseSource`?
+                if isinstance(model, list) and len(model) == 3:
+                    self.res.count('%s:parseText-%s' % (stream, 'same' if str(model[2]) == 'T' else 'differs'))
+                    model = model[:2]
+                post = None
             if post:
                 model = post(model)
                 real = post(real)
@@ -641,6 +848,21 @@ def builder_output_shape(text):
     return tags
 
 
+def _with_empty_text(tree, rng):
+    """a copy of a builder tree with empty strings among the children (every childless element gets one with
+    probability 1/2: `tag.a('')`)"""
+    if tree['t'] != 'e':
+        return tree
+    kids = []
+    for k in tree['kids']:
+        if rng.random() < 0.3:
+            kids.append({'t': 't', 's': ''})
+        kids.append(_with_empty_text(k, rng))
+    if not kids and rng.random() < 0.5:
+        kids.append({'t': 't', 's': ''})
+    return dict(tree, kids=kids)
+
+
 def shard(arg):
     import random
     from genshi.input import XML
@@ -662,6 +884,10 @@ def shard(arg):
         if rng.random() < 0.1:
             o['depth'] = 5
             o['width'] = 3
+        if i % 4 == 1 or opts.get('stress'):
+            # runs of adjacent character data: CDATA sections next to each other / to text / to references, empty
+            # sections, `]]>` split over two sections (gen_xml._gen_run); counters doc:cdata-*
+            o['cdata_runs'] = 0.35 if i % 4 == 1 else opts['stress']
         if i % 8 == 3:
             # xmlns:xml="http://www.w3.org/XML/1998/namespace" on some elements (inside `nsDeclOK` since the
             # hypothesis was weakened; the flattener must drop the declaration and keep `xml:` usable)
@@ -690,6 +916,37 @@ def shard(arg):
             res.count('first-parse-differs-from-generating-tree')
             res.notes.append('first parse differs from the generating tree: %r' % text[:200])
         corr.add_events(events, case)
+        if i % 4 in (1, 2):
+            # the callbacks expat really makes for this document (recorded), through the model of the layer,
+            # against the events XMLParser delivers; every 8th document with an undefined entity put in
+            t2 = text
+            if i % 8 == 2:
+                t2 = text.replace('><', '>&nosuchentity;<', 1) if rng.random() < 0.5 else text.replace('</', '&zzz;</', 1)
+            log, evs = recorded_parse(t2)
+            # the foreign DTD (HTML entities) comes through `_handle_other` token by token, ~1 800 calls per
+            # document that enqueue nothing: the first 8 are sent to the model, the rest counted (the made-up
+            # sequences of stream `cbs` hold such texts too)
+            keep, nother = [], 0
+            for c in log:
+                if isinstance(c, list) and c[0] == 'O' and not c[1].startswith('&'):
+                    nother += 1
+                    if nother > 8:
+                        res.count('cbs-expat:default-handler-calls-not-sent')
+                        continue
+                keep.append(c)
+            log = keep
+            for c in log:
+                res.count('cbs-expat:callback:%s' % (str(c[0]) if isinstance(c, list) else str(c)))
+            if evs is None and not (log and isinstance(log[-1], list) and log[-1][0] == 'O' and log[-1][1].startswith('&')):
+                # expat's own verdict (e.g. an undefined entity under standalone="yes"), not the layer's
+                res.count('cbs-expat:expat-error')
+            elif evs is None:
+                res.count('cbs-expat:parse-error')
+                corr.add('cbs-expat', {'kind': 'doc', 'text': t2}, proto.line(C02, Atom('cbs'), log), Atom('F'),
+                         post=lambda a: a[0] if isinstance(a, list) else a)
+            else:
+                corr.add('cbs-expat', {'kind': 'doc', 'text': t2}, proto.line(C02, Atom('cbs'), log),
+                         [B(True), wire_stream(evs)])
         if i % 4 == 0:
             out = ''.join(_ser(events))
             texts.append(out)
@@ -715,9 +972,12 @@ def shard(arg):
             corr.add_enc(t, enc, {'kind': 'enc', 'text': t, 'enc': enc}, tag='-border')
     # source documents without HTML entities through the reader (single quotes, hex references, spacing)
     for i in range(ndocs // 4):
-        doc = gen_xml.gen_doc(rng, html_entities=False)
+        doc = gen_xml.gen_doc(rng, html_entities=False, **({'cdata_runs': 0.35} if i % 2 else {}))
         text = gen_xml.write_doc(doc)
         corr.add_text(text, {'kind': 'read', 'text': text}, tag='-source')
+        # `parseText` (the specification-side account of XMLParser + EmptyTagFilter) on source documents, not only on
+        # serializer output: single quotes, references of every spelling, declarations in any attribute position
+        corr.add_reparse(text, {'kind': 'read', 'text': text}, tag='-source')
     # accept/reject agreement of the Lean reader and expat on damaged texts.  ASCII only: the reader does not
     # carry the Unicode name tables (any non-ASCII XML character is a name character for it)
     for i in range(ndocs // 4):
@@ -752,8 +1012,30 @@ def shard(arg):
         res.count('tree:namespaces=%d' % min(len(nss), 5))
         if len(nss) > 1:
             res.nontrivial.add('tree/' + json.dumps(tree, sort_keys=True)[:200])
+        if i % 3 == 2:
+            # the same tree as an ElementTree element through ET(): oracle, and the filters' models on its stream
+            ecase = {'kind': 'et-tree', 'tree': tree}
+            res.evaluations += 1
+            res.count('et-tree:oracle')
+            f = oracle_case(ecase, res)
+            if f:
+                res.failures.append(f)
+            from genshi.input import ET
+            corr.add_events(list(ET(build_et(tree))), ecase, tag='-et')
         events = list(gen_xml.build(tree).generate())
         corr.add_events(events, case, tag='-builder')
+        if i % 6 == 1:
+            # the same tree with empty strings put in (outside the oracle's domain: XML has no empty text node): the
+            # models on `<a></a>` — serializer, `parseSource` against the real parser chain (EMPTY), the side
+            # condition `noStartEndX` of ser_idempotent_builder_source
+            t2 = _with_empty_text(tree, rng)
+            ev2 = list(gen_xml.build(t2).generate())
+            c2 = {'kind': 'tree-emptytext', 'tree': t2}
+            corr.add_events(ev2, c2, tag='-builder-emptytext')
+            try:
+                corr.add_reparse(''.join(_ser(ev2)), c2, tag='-emptytext')
+            except Exception:  # noqa
+                res.count('tree:serializer-raised')
         if i % 5 == 0:
             corr.add_events(events, case, pref={'u1': 'k', 'u2': '', 'urn:x:y': 'ns1'}, tag='-builder-pref')
         # what the flattener had to make up for this tree (measured on the real output), and the second pass:
@@ -797,6 +1079,17 @@ def shard(arg):
                  evwire.stream(list(_coalesce(iter(events)))))
         s = rng.choice(['a', '{u}a', 'u}a', '{{u}a', '{u}a}b', '{}a', 'a{b', '}', '{', ''])
         corr.add('qname', {'kind': 'qname', 'text': s}, proto.line(C02, Atom('qname'), s), evwire.qn(QName(s)))
+    # XMLParser's layer over expat (`_handle_*`, `_coalesce`): callback sequences made up here, handed to the real
+    # methods directly; and `ET()` on made-up ElementTree elements
+    for i in range(nwild // 4):
+        cbs = gen_cbs(rng)
+        case = {'kind': 'cbs', 'cbs': _wire_json(cbs)}
+        real = real_cbs(cbs)
+        kinds = set(str(c[0]) if isinstance(c, list) else str(c) for c in cbs)
+        res.count('cbs:%s' % ('undefined-entity' if real[0] == 'F' else 'entity' if 'O' in kinds else 'plain'))
+        corr.add('cbs', case, proto.line(C02, Atom('cbs'), cbs), real)
+        t = gen_etree(rng)
+        corr.add('et', {'kind': 'et', 'tree': t}, proto.line(C02, Atom('et'), _etree_wire(t)), real_et(t))
     corr.finish()
     return res
 
@@ -817,16 +1110,20 @@ def run(ctx):
         res.merge(r)
     res.rule = ('generated well-formed documents (nested / re-bound / undeclared default namespaces, several prefixes per URI, '
                 'mixed content, references, comments, PIs, CDATA, declaration, doctype) and builder trees from arbitrary qualified '
-                'names, each rendered unencoded and in utf-8, ascii, latin-1, utf-16 and re-read by expat; non-trivial = document '
-                'with a re-bound/undeclared/aliased namespace, namespaced attribute, CDATA or reference (distinct by construct set '
+                'names (every third also as an ElementTree element through ET()), each rendered unencoded and in utf-8, ascii, latin-1, utf-16 and re-read by expat; non-trivial = document '
+                'with a re-bound/undeclared/aliased namespace, namespaced attribute, CDATA (every fourth document with runs of '
+                'adjacent character data: CDATA sections next to each other, to text and to references, empty sections, "]]>" '
+                'split over two sections) or reference (distinct by construct set '
                 'and size class) or tree with more than one namespace (distinct by content)')
     res.samples = res.samples[:6]
     return res
 
 
 def search(ctx, res, broken):
-    """failing-input search: the disagreeing cases first (through the oracle on the real code),
-    then a larger seeded budget of documents and trees biased to namespace-heavy shapes"""
+    """failing-input search: the disagreeing cases first (through the oracle on the real code; an event sequence
+    of the correspondence-only streams is written out as an XML document first, `events_to_doc`), then a larger
+    seeded budget of documents and trees: half of the shards with the ordinary mix (namespace-heavy), half with
+    every document full of adjacent character data (`stress`: the parser layer's seams)"""
     found = []
     for d in res.disagreements[:200]:
         case = d.get('case') or {}
@@ -835,26 +1132,76 @@ def search(ctx, res, broken):
             found.append(f)
     if found:
         return found
-    args = [(ctx.seed + 1000 + i, i, 700, 300, 0, {}) for i in range(16)]
+    args = [(ctx.seed + 1000 + i, i, 700, 300 if i % 2 == 0 else 0, 0, {'stress': 0.5} if i % 2 else {})
+            for i in range(16)]
     for r in pmap('harness.props.c02', 'shard', args):
         found.extend(r.failures)
     return found
 
 
+def _xml_clean(s):
+    return ''.join(c for c in s if c in '\t\n' or 0x20 <= ord(c) <= 0xd7ff or 0xe000 <= ord(c) <= 0xfffd
+                   or 0x10000 <= ord(c))
+
+
+def events_to_doc(w):
+    """an arbitrary event sequence (wire form, as generated by `gen_wild`) written out as a well-formed XML
+    document in the ordinary way, keeping as much of its shape as XML allows: elements get plain names and are
+    closed at the end, TEXT is escaped, START_CDATA / END_CDATA become section markers (an END_CDATA without a
+    section open gives an empty section, a START_CDATA inside a section closes it and opens the next), text
+    inside a section that contains `]]>` is split over two sections, comments and PIs are made legal, the rest
+    is dropped.  Independent of genshi's serializer."""
+    out = ['<r>']
+    depth = 0
+    cd = False
+    for e in w:
+        k = str(e[0]) if isinstance(e, list) else str(e)
+        if k == 'SC':
+            out.append(']]><![CDATA[' if cd else '<![CDATA[')
+            cd = True
+        elif k == 'EC':
+            out.append(']]>' if cd else '<![CDATA[]]>')
+            cd = False
+        elif k == 'T':
+            t = _xml_clean(str(e[1])).replace('\r', '')
+            if cd:
+                out.append(t.replace(']]>', ']]]]><![CDATA[>'))
+            else:
+                out.append(t.replace('&', '&amp;').replace('<', '&lt;').replace(']]>', ']]&gt;'))
+        elif cd:
+            continue
+        elif k == 'S':
+            out.append('<e>')
+            depth += 1
+        elif k == 'E':
+            if depth:
+                out.append('</e>')
+                depth -= 1
+        elif k == 'C':
+            t = _xml_clean(str(e[1])).replace('\r', '').replace('--', '- -')
+            out.append('<!--%s-->' % (t + ' ' if t.endswith('-') else t))
+        elif k == 'PI':
+            t = _xml_clean(str(e[2])).replace('\r', '').replace('?>', '? >').lstrip()
+            out.append('<?p%s?>' % (' ' + t if t else ''))
+    if cd:
+        out.append(']]>')
+    out.append('</e>' * depth + '</r>')
+    return ''.join(out)
+
+
 def replay(ctx, case):
     kind = case.get('kind')
-    if kind in ('doc', 'tree', 'events', 'bytes-doc'):
+    if kind in ('doc', 'tree', 'events', 'bytes-doc', 'et-tree'):
         return oracle_case(case)
     if kind == 'wild':
-        # correspondence-only input: judge it by the property if it happens to be in its domain
-        from genshi.core import Stream
+        # correspondence-only input (arbitrary event sequence): outside the property as it stands; judge the
+        # XML document that spells the same sequence
         try:
-            events = evwire.unstream(_json_wire(case['events']))
-            first = gen_xml.canon_events(events)
-            stream = Stream(events)
-            text = _render(stream, None)
-            again = gen_xml.expat_events(text)
+            text = events_to_doc(_json_wire(case['events']))
         except Exception:  # noqa
             return None
-        return None
+        return oracle_case({'kind': 'doc', 'text': text})
+    if kind in ('read', 'enc') and isinstance(case.get('text'), str):
+        # a text of the reader / encode streams: if it is a well-formed document the property speaks about it
+        return oracle_case({'kind': 'doc', 'text': case['text']})
     return None
